@@ -248,6 +248,8 @@ def run(prog, ctx):
     # ------------------------------------------------------------------ D7
     check_forwarding(prog, ctx)
 
+    # ------------------------------------------------------------------ D8: one history entry per evaluation
+    check_histories_reset_together(prog, ctx)
     # ------------------------------------------------------------------ D5
     sigs = {}
     for fi in gee:
@@ -422,3 +424,50 @@ def check_forwarding(prog, ctx, rule="C13.D7", only_limits=False):
                       "%s.__init__ accepts `%s` but does not pass it to %s.__init__ (%s) nor stores it: the strategy silently runs with the base "
                       "default" % (st.name, pn, parent.cls.name, "bound to `%s`" % src(v) if v is not None else "left to its default"))
     ctx.floor("C13.D7", n, 6, "same-named parameters between a caller and the constructor / loop it delegates to")
+
+
+
+def check_histories_reset_together(prog, ctx):
+    """D8: the driver keeps one history entry per evaluation in several parallel lists (errors, point counts, surplus errors, ...), all
+    appended to in the evaluation loop and returned side by side.  A routine that starts a new run by emptying some of these lists
+    has to empty all of them on the same paths -- otherwise the lists have different lengths and the point counts "decrease" from the
+    second run of a driver object on."""
+    base = prog.cls("spatiallyAdaptiveBase.SpatiallyAdaptivBase")
+    loopf = prog.lookup_method(base, "continue_adaptive_refinement")
+    ctx.touch(loopf)
+    # the history group: attributes of self that receive .append inside the evaluation loop and are part of the returned tuple
+    appended = set()
+    for x in R.calls_in(loopf.node, method="append"):
+        a = R.self_attr(x.func.value, loopf.self_name)
+        if a is not None and R.enclosing_loops(x):
+            appended.add(a)
+    returned = set()
+    for r in R.return_paths(loopf)[0]:
+        for y in ast.walk(r.ast.value):
+            a = R.self_attr(y, loopf.self_name) if isinstance(y, ast.Attribute) else None
+            if a is not None:
+                returned.add(a)
+    group = appended & returned
+    ctx.floor("C13.D8", len(group), 3, "history lists appended per evaluation and returned")
+    n = 0
+    for fi in sorted(prog.functions.values(), key=lambda f: f.qual):
+        if fi.cls is None or base not in fi.cls.mro or fi.name == "__init__":
+            continue
+        resets = {}
+        for s_ in R.self_stores(fi):
+            if s_.attr in group and s_.kind == "plain" and isinstance(s_.value, ast.List) and not s_.value.elts:
+                resets.setdefault(s_.attr, []).append(s_)
+        if not resets:
+            continue
+        n += 1
+        c = cfg_of(fi)
+        missing = sorted(group - set(resets))
+        # the resets happen on the same paths: each reset node post-dominates and is dominated by the first one (same straight-line region)
+        nodes = [c.node_of(v[0].stmt) for v in resets.values()]
+        first = min(nodes, key=lambda n_: n_.idx)
+        together = all(n_ is first or (c.dominates(first, n_) and c.post_dominates(n_, first)) for n_ in nodes)
+        ctx.check(not missing and together, "C13.D8", R.key_of(fi, "histories-reset-together"), fi.loc(resets[sorted(resets)[0]][0].stmt),
+                  "%s empties all %d history lists together" % (fi.name, len(group)),
+                  "%s starts a new history for %s but not for %s%s: the per-evaluation lists get different lengths and the reported point counts of an earlier "
+                  "run stay in front of the new ones" % (fi.name, sorted(resets), missing, "" if together else " (and not on the same paths)"))
+    ctx.floor("C13.D8.sites", n, 1, "routines that start a new history")
